@@ -587,6 +587,8 @@ def classify_failure(kind, what, toks, prev, ho, entered_unsynced, stale_types):
         if what and what[0].startswith("dims") and name in ("qAR", "gAR", "qAC", "gAC", "qARS", "qACS", "qCR", "qCC") \
                 and any(0 < abs(v) < Fraction(5e-324) / 2 for v in vals):
             return "drift:dims-underflow-implicit"
+        if what and what[0].startswith("dims") and name in ("gAR", "gAC") and any(v == 0 for v in vals[(2 if name == "gAR" else 3):]):
+            return "drift:dims-gmp-zero-entry-implicit"
         if name in ("gAC", "gACS") and prev is not None and prev.Q is not None and prev.Q.lsense != int(ho.extras.get("psense", prev.Q.lsense)):
             return "drift:gmp-addcol-sense-after-clear"
         return "drift:%s:%s" % (name, what[0].split("[")[0].split("(")[0] if what else "")
@@ -945,6 +947,8 @@ def corpus_cases():
     cs.append({"head": "1 -1", "ops": base + ["M 0", "M 2", "qAR 1/1 1/1 1 0 2/1", "SQ"]})
     # implicit growth through a value that underflows
     cs.append({"head": "1 -1", "ops": base + ["qAR 0/1 1/1 2 0 1/3 3 1/1" + "0" * 400]})
+    # the GMP single-add entry points create columns / rows for explicit zero entries in the rational LP only
+    cs.append({"head": "1 -1", "ops": base + ["gAR 0/1 1/1 1 4 0/1", "gAC 1/1 0/1 1/1 1 6 0/1"]})
     # AUTO entered from MANUAL
     cs.append({"head": "2 -1", "ops": ["rAC %s %s %s 0" % (d1, d0, inf), "M 1", "rAR %s %s 1 0 %s" % (d0, d5, d1)]})
     # GMP addCol after clear under MINIMIZE
